@@ -56,6 +56,7 @@ type c10field interface {
 	Gen(m uint64) (*big.Int, bool)
 	Omega(logn int) *big.Int
 	Transform(kind string, c c10cfg, v []*big.Int) []*big.Int
+	BigTransform(kind string, c c10cfg, mode byte, seed uint64, k *big.Int) string
 	BitRev(v []*big.Int) []*big.Int
 	BitRevBig(logn int, mult uint64) (uint64, bool)
 	DomainInfo(m uint64, shift *big.Int) []*big.Int
@@ -334,6 +335,8 @@ func execC10(a []string) string {
 		return "bad-op"
 	}
 	switch a[0] {
+	case "big":
+		return execC10big(a[1:])
 	case "fft", "inv", "roundtrip", "rtinv":
 		f, c, v, ok := c10args(a[1:])
 		if !ok {
@@ -705,6 +708,8 @@ func genC10(g *gen) {
 			k++
 		}
 	}
+	// (h) large transforms by digest (c10_big.go)
+	genC10big(g)
 	// (g) malformed lines
 	g.emit("C10 fft bn254 1 1 0 dif 0 1 1 5 0")
 	g.emit("C10 fft nofield 1 1 0 dif 0 1 1 5 0 1")
